@@ -404,6 +404,7 @@ def kind_of(e) -> str:
     from classy_blocks.construct.flat.sketch import Sketch
     from classy_blocks.construct.flat.sketches.annulus import Annulus
     from classy_blocks.construct.flat.sketches.disk import DiskBase, WrappedDisk
+    from classy_blocks.construct.flat.sketches.spline_round import SplineRound
     from classy_blocks.construct.shapes.sphere import EighthSphere
     from classy_blocks.construct.stack import Stack
 
@@ -438,6 +439,8 @@ def kind_of(e) -> str:
             return "firstpt"
         if type(e) in (cb.MappedSketch, Annulus):
             return "sketchavg"
+        if isinstance(e, SplineRound) and _defining_class(e, "center") == "SplineRound" and _defining_class(e, "parts") == "Sketch":
+            return "facept3"
         return "other"
     if isinstance(e, EighthSphere):
         return "sphere"
@@ -1433,7 +1436,7 @@ class C09(core.Check):
         "equivariance of every transcribed centre rule (all entity kinds but EdgeData's constant centre) under the "
         "entity schema, which is regenerated from the source's `parts` / `center` definitions; copy independence; "
         "equivariance of the Origin/Angle arc constructions with square roots as witnesses. Spline interpolation, "
-        "closest-parameter search of OnCurve edges, float rounding, Shear, and the centres of Oval / spline sketches / "
+        "closest-parameter search of OnCurve edges, float rounding, shear on whole trees (points / arrays are modelled), and the centres of Oval / spline rings / "
         "interpolated curves (observed values) are checked by the oracle only"
     )
 
@@ -1599,6 +1602,18 @@ class C09(core.Check):
             elif fn == "f.mirror":
                 step = next(s for s in iter(lambda: gen_steps(rng, 1, False)[0], None) if s["k"] == "M")
             cases.append({"kind": "prim", "fn": fn, "pts": [S(rvec(rng)) for _ in range(rng.randint(2, 4))], "step": step})
+        # Round 6c: Point.shear / Array.shear / ElementBase.shear (a Face): points on both sides of the plane and on it,
+        # non-unit normal and direction, in-plane and oblique directions
+        for i in range(9 * mult):
+            fr = Frame(rng)
+            o = fr.P(rq(rng, -2, 2), rq(rng, -2, 2), rq(rng, -2, 2))
+            n = fr.D(0, 0, rng.choice([1, 2, -3, Fr(1, 2)]))
+            d = fr.D(rq(rng, 1, 3), rq(rng, -2, 2), 0 if i % 3 else rq(rng, -1, 1))
+            hs = [Fr(0), rq(rng, 1, 8) / 4, -rq(rng, 1, 8) / 4, rq(rng, 2, 6)]
+            rng.shuffle(hs)
+            pts = [add(o, fr.D(rq(rng, -3, 3), rq(rng, -3, 3), h)) for h in hs]
+            cases.append({"kind": "shear", "fn": ["Point", "Array", "Face"][i % 3], "n": S(n), "o": S(o), "d": S(d),
+                          "cot": str(Fr(rng.choice([-7, -3, -1, 1, 2, 5, 9]), rng.choice([2, 3, 4]))), "pts": [S(p) for p in pts]})
         return cases
 
     # ------------------------------------------------------------------ implementation
@@ -1609,6 +1624,8 @@ class C09(core.Check):
             warnings.simplefilter("ignore")
             if case["kind"] == "prim":
                 return self._run_prim(case)
+            if case["kind"] == "shear":
+                return self._run_shear(case)
             spec, steps = case["ent"], case["steps"]
             twin = build(spec)
             CALLER_ARRAYS.clear()
@@ -1673,6 +1690,34 @@ class C09(core.Check):
             out["projection_leaks"] = projection_probe(target, other)
             return out
 
+    def _run_shear(self, case: dict) -> Any:
+        """Point.shear / Array.shear / Face.shear (ElementBase.shear: every part) on the real objects"""
+        import numpy as np
+        import classy_blocks as cb
+        from classy_blocks.construct.array import Array
+        from classy_blocks.construct.point import Point
+
+        n, o, d = (np.array(FV(case[k])) for k in ("n", "o", "d"))
+        snap = [np.copy(x) for x in (n, o, d)]
+        angle = math.atan2(1.0, float(Fr(case["cot"])))  # cot(angle) = case["cot"], angle in (0, pi)
+        pts = [FV(p) for p in case["pts"]]
+        if case["fn"] == "Point":
+            objs = [Point(p) for p in pts]
+            for ob in objs:
+                ob.shear(n, o, d, angle)
+            res = [ob.position for ob in objs]
+        elif case["fn"] == "Array":
+            arr = Array(pts)
+            arr.shear(n, o, d, angle)
+            res = list(arr.points)
+        else:
+            face = cb.Face(pts[:4])
+            face.shear(n, o, d, angle)
+            res = list(face.point_array)
+        mutated = [k for k, a, b in zip(("normal", "origin", "direction"), (n, o, d), snap) if not np.array_equal(a, b)]
+        return {"res": [[float(c) for c in r] for r in res], "mutated": mutated,
+                "sn": float(np.linalg.norm(snap[0])), "sd": float(np.linalg.norm(snap[2]))}
+
     def _run_prim(self, case: dict) -> Any:
         import numpy as np
         from classy_blocks.construct.array import Array
@@ -1717,6 +1762,10 @@ class C09(core.Check):
 
     # ------------------------------------------------------------------ model
     def requests(self, case: dict, impl: Any) -> List[str]:
+        if case["kind"] == "shear":
+            npts = 4 if case["fn"] == "Face" else len(case["pts"])
+            return [f"c09.shear {enc_v(FV(case['n']))} {enc_v(FV(case['o']))} {enc_v(FV(case['d']))} {core.rat(impl['sn'])} "
+                    f"{core.rat(impl['sd'])} {core.rat(Fr(case['cot']))} " + " ".join(enc_v(FV(p)) for p in case["pts"][:npts])]
         if case["kind"] == "prim":
             s = case["step"]
             return [f"c09.prim {enc_step(s, None)} " + " ".join(enc_v(FV(p)) for p in case["pts"])]
@@ -1777,6 +1826,16 @@ class C09(core.Check):
 
     def compare(self, case: dict, impl: Any, model: List[str]) -> Optional[str]:
         ans = model[0]
+        if case["kind"] == "shear":
+            toks = ans.split()
+            if toks[0] != "ok" or len(toks) - 1 != len(impl["res"]):
+                return f"model answers {ans[:80]}"
+            for t, r_ in zip(toks[1:], impl["res"]):
+                m = [core.parse_rat(x) for x in t.split(",")]
+                scale = 1.0 + max(abs(c) for c in r_)
+                if not all(_close(a, b, scale) for a, b in zip(m, r_)):
+                    return f"{case['fn']}.shear cot={case['cot']}: model {[float(x) for x in m]}, implementation {r_}"
+            return None
         if case["kind"] == "prim":
             toks = ans.split()
             if toks[0] != "ok" or len(toks) - 1 != len(impl["res"]):
@@ -1811,6 +1870,21 @@ class C09(core.Check):
     # ------------------------------------------------------------------ oracle
     def oracle(self, case: dict, impl: Any) -> List[dict]:
         out: List[dict] = []
+        if case["kind"] == "shear":
+            # independent of the model: every point moves along the unit direction by |distance from the plane| * cot(angle)
+            for m in impl["mutated"]:
+                out.append({"site": f"{case['fn']}.shear:argument-modified:{m}", "what": "a caller-owned array was modified in place"})
+            n, o, d = ([Fr(c) for c in V(case[k])] for k in ("n", "o", "d"))
+            sn, sd = math.sqrt(float(dot(n, n))), math.sqrt(float(dot(d, d)))
+            for p, r_ in zip(case["pts"], impl["res"]):
+                pf = [Fr(c) for c in V(p)]
+                dist = abs(float(dot(sub(pf, o), n))) / sn
+                amount = dist * float(Fr(case["cot"])) if dist > 1e-7 else 0.0
+                exp = [float(pf[i]) + amount * float(d[i]) / sd for i in range(3)]
+                if not _near(exp, r_, 1e-9 * (1 + max(abs(c) for c in exp))):
+                    out.append({"site": f"{case['fn']}.shear:wrong-image", "what": f"point {FV(p)} at distance {dist} from the plane", "expected": exp, "observed": r_})
+                    break
+            return out
         if case["kind"] == "prim":
             for m in impl["mutated"]:
                 out.append({"site": f"{case['fn']}.{case['step']['k']}:argument-modified:{m}", "what": "a caller-owned array was modified in place"})
@@ -1934,6 +2008,8 @@ class C09(core.Check):
 
     # ------------------------------------------------------------------ bookkeeping
     def classify(self, case, impl):
+        if case["kind"] == "shear":
+            return "shear:" + case["fn"]
         if case["kind"] == "prim":
             return "prim:" + case["fn"] + ":" + case["step"]["k"]
         if case.get("degenerate"):
